@@ -30,6 +30,10 @@ use crate::value::Value;
 use crate::vm::Vm;
 
 const STACK_MAX: usize = common::LOCALS_MAX * common::FRAMES_MAX;
+/// No instruction pushes more than a handful of values. The interpreter compares the height of the
+/// operand stack with this mark once per instruction and reports a stack overflow above it, so the
+/// stack itself is never written past its end.
+pub(crate) const STACK_HIGH_WATER: usize = STACK_MAX - 64;
 
 #[derive(Clone, Debug)]
 pub struct ObjString {
